@@ -92,7 +92,7 @@ class Flow:
     def _referent_nodes(self, l, depth=0):
         """Nodes a `&mut` local may point to (follow its ref definition)."""
         out = []
-        if depth > 4:
+        if depth > 8:
             return out
         for (p, kind, data) in self.b.defs.get(l, []):
             if kind == 'assign' and not data['place']['p']:
@@ -103,13 +103,23 @@ class Flow:
                     pl = rv['place']
                     if pl['p'] and pl['p'][0]['k'] == 'deref' and len(pl['p']) == 1:
                         out.extend(self._referent_nodes(pl['l'], depth + 1))
-                elif rv['k'] == 'use':
-                    ol = op_local(rv['op'])
-                    if ol is not None:
-                        out.extend(self._referent_nodes(ol, depth + 1))
+                elif rv['k'] in ('use', 'cast'):
+                    o = rv['op']
+                    if o['k'] in ('copy', 'move'):
+                        if place_has_deref(o['place']):
+                            # a pointer loaded from a field reached through a reference: that heap location
+                            out.extend(self.write_nodes(o['place']))
+                        else:
+                            # a copy of (a field of) another reference-carrying local
+                            out.extend(self._referent_nodes(o['place']['l'], depth + 1))
             elif kind == 'call':
-                # &mut returned by an accessor: referent unknown -> the local itself stands for it
+                # &mut returned by an accessor: it may alias whatever the &mut arguments pointed to;
+                # the local itself also stands for the (unknown) referent
                 out.append(('l', l))
+                for a in data.args:
+                    al = op_local(a)
+                    if al is not None and self.b.local_ty(al).startswith('&mut'):
+                        out.extend(self._referent_nodes(al, depth + 1))
         if not self.b.defs.get(l):
             out.append(('l', l))
         return out
@@ -222,12 +232,14 @@ class Flow:
                     work.append(m)
         return seen
 
-    def backward(self, sinks):
+    def backward(self, sinks, skip_mem=False):
         seen = set(sinks)
         work = list(sinks)
         while work:
             n = work.pop()
             for m in self.redges.get(n, ()):
+                if skip_mem and m[0] == 'm':
+                    continue
                 if m not in seen:
                     seen.add(m)
                     work.append(m)
